@@ -555,6 +555,20 @@ def eval_case(ctx, case, want_dump=False, light=False):
                  {"flag": bool(flag0), "w12": np.asarray(w12_0).tolist(), "w21": np.asarray(w21_0).tolist()},
                  {"flag": A["flag"], "w12": A["w12"].tolist(), "w21": A["w21"].tolist()},
                  "contact_forces == find_contact_surface + accumulate_wrenches on fresh copies (bitwise)")
+    # 0b. the same call with return_details=True: identical flag and wrenches (details are a by-product)
+    d1, d2 = make_body(s1), make_body(s2)
+    try:
+        flagD, w12_D, w21_D, _det = hc.contact_forces(d1, d2, return_details=True)
+        if bool(flagD) != A["flag"] or not np.allclose(w12_D, A["w12"], rtol=1e-12, atol=1e-300) \
+                or not np.allclose(w21_D, A["w21"], rtol=1e-12, atol=1e-300):
+            ctx.fail("contact_forces(return_details=True)", {"case": case, "relation": "details"},
+                     {"flag": bool(flagD), "w12": np.asarray(w12_D).tolist(), "w21": np.asarray(w21_D).tolist()},
+                     {"flag": A["flag"], "w12": A["w12"].tolist(), "w21": A["w21"].tolist()},
+                     "the wrenches do not depend on whether details are requested")
+    except Exception as e:  # noqa
+        ctx.fail("contact_forces(return_details=True)", {"case": case, "relation": "details"},
+                 "raised %s: %s" % (type(e).__name__, str(e)[:200]), "same result as without details",
+                 "the wrenches do not depend on whether details are requested")
     # 1. action-reaction
     if np.linalg.norm(A["w12"][:3] + A["w21"][:3]) > REL_TOL * nfA + 1e-9 * fsum_of(A):
         ctx.fail("contact_forces:action_reaction", {"case": case, "relation": "action_reaction"},
